@@ -54,7 +54,7 @@ CONFIG = {
     "case_to_replay": _c20_case,
     "parts": [LINK],
     "assumptions": [
-        "net/url of go1.26.8 (ParseRequestURI authority path: parse, parseAuthority, parseHost, validOptionalPort, unescape host/zone, shouldEscape table; QueryEscape/QueryUnescape, Values.Encode for the keys used) and netip.ParseAddr (IPv6 literals, embedded IPv4, zones) are hand-modelled in Model/NetURL.v and tied by correspondence only (ValidateRegistry on ~1.4e5 / 2.5e6 authorities quick / thorough: exhaustive to length 4/5 over 18 symbols, all 256 bytes in 7 templates, generated reg-names / ports / IP literals / escapes; no registry is unjudged). The harness refuses to run on another toolchain. The theorems about what ValidateRegistry accepts hold for every behaviour of netip.ParseAddr (parameter ip6_ok); three ParseRequestURI facts are shortcuts of the model rather than computed: a '?', '/' or '@' in the registry makes Host come out of a proper part of it, hence != registry",
+        "net/url of go1.26.8 (ParseRequestURI authority path: parse, parseAuthority, parseHost, validOptionalPort, unescape host/zone, shouldEscape table; QueryEscape/QueryUnescape, Values.Encode for the keys used) and netip.ParseAddr (IPv6 literals, embedded IPv4, zones) are hand-modelled in Model/NetURL.v and tied by correspondence only (ValidateRegistry on ~1.4e5 / 2.5e6 authorities quick / thorough: exhaustive to length 4/5 over 18 symbols, all 256 bytes in 7 templates, generated reg-names / ports / IP literals / escapes; no registry is unjudged). The harness refuses to run on another toolchain. The theorems about what ValidateRegistry accepts hold for every behaviour of netip.ParseAddr (parameter ip6_ok); the model rejects at once when the registry contains '?', '/' or '@'; that shortcut is proved equal to the step-by-step ParseRequestURI rendering (C20_registry_shortcuts_sound) in which only validUserinfo / unescaping of user-info and path stay abstract",
         "go-digest v1.0.0 Digest.Validate is hand-modelled: algorithm in the fixed table sha256/384/512 AND linked into the binary (crypto.Hash.Available), lower-case hex of the exact length. Which source that is, is pinned: the harness refuses another version and go.sum's content hash is regenerated into the model (C20_go_digest_pinned). The link set is the parameter avail of model and theorems; it is exercised in two builds: all hashes linked (cmd/c20) and crypto/sha256 only (cmd/c20link). A binary that links no hash accepts no digest reference (theorems still hold; not run)",
         "Go regexp semantics for the ASCII-only, fully anchored expressions used here = Base/Regex.v Lang (proved equal to the derivative matcher)",
         "generic URL syntax (RFC 3986 section 3) = Model url_split; url.ParseQuery restricted to '&'/'=' splitting + QueryUnescape = Model parse_query; both compared with net/url on every URL / request of the run",
